@@ -30,13 +30,21 @@
         file at the switch overlaid with the last frame of every page each
         transaction wrote - and LiteFS's per-page answer is that database's
         entry (C04_wal_history).
-   NOT proved (C04_history_partial): the same composition through
-   checkpoints, the way back out of WAL mode, Open and replicated apply; it is re-checked on
+     7. (round 8) ... with LiteFS's own checkpoint (CheckpointNoLock) between
+        the WAL commits, in any order and number: the log LiteFS keeps a picture
+        of, its per-page WAL checksums and the file stay tied to the logical
+        database (invariant WK), so the checkpoint changes no answer, and with
+        nothing left in the log the database file IS the logical database
+        (C04_wal_checkpoint_history).
+   NOT proved (C04_history_partial): the same composition through a
+   checkpoint run by SQLite (page writes to the database file in WAL mode and
+   the restart of the log), the way back out of WAL mode, Open and replicated
+   apply; it is re-checked on
    every run by the correspondence (the model re-executes every generated
    history and must reproduce every reported position) and by the harness'
    raw-file recomputation. *)
 From Coq Require Import NArith List Bool.
-Require Import LF.Gen.ConstsGen LF.Model.PageDB LF.Proofs.XorLib LF.Proofs.ChecksumProofs LF.Proofs.CaptureProofs LF.Proofs.HistoryProofs LF.Proofs.WalHistoryProofs.
+Require Import LF.Gen.ConstsGen LF.Model.PageDB LF.Proofs.XorLib LF.Proofs.ChecksumProofs LF.Proofs.CaptureProofs LF.Proofs.HistoryProofs LF.Proofs.WalHistoryProofs LF.Proofs.WalCheckpointProofs.
 Import ListNotations.
 Local Open Scope N_scope.
 
@@ -156,3 +164,37 @@ Example C04_wal_history_nonvacuous :
     | None => False
     end.
 Proof. exact wal_history_example. Qed.
+
+(* ... and with LiteFS's checkpoint anywhere in between.  [os]: WAL commits ([WCommit frames commit]) and checkpoints
+   ([WCheckpoint]: the last committed version of every page in the log is copied into the database file, the file is cut to
+   the size of the last commit, the WAL bookkeeping is forgotten) in any order and number; [wf_wops] asks of a commit what
+   [wf_wals] asks, and that it has frames, a size, and page numbers from 1.  [v'] is computed as before - a checkpoint
+   leaves it alone.  For EVERY such history: as above, and whenever nothing is left in the log (right after a checkpoint)
+   the database file holds exactly the logical database. *)
+Theorem C04_wal_checkpoint_history : forall lock hs zf acts c os s1 s2 s' v',
+  1 <= lock -> wf_hist (init lock) hs -> run_hsteps (init lock) hs = Some s1 ->
+  wf_tx_any s1 zf acts -> run_group s1 (hops s1 (HTx zf acts c)) = (0, s2) -> wal_mode s2 = true ->
+  wf_wops s2 os -> run_wops s2 (file_h s2) os = Some (s', v') ->
+  chk s' = scratch (fun p => if p =? lock then 0 else v' p) (pageN s') /\
+  (forall p, 1 <= p <= pageN s' -> p <> lock -> eff s' (pageN s') [] p = v' p) /\
+  (wal_file s' = [] -> forall p, 1 <= p <= pageN s' -> p <> lock -> file_h s' p = v' p) /\ lockpg s' = lock.
+Proof. exact wal_ckpt_history_checksum. Qed.
+Print Assumptions C04_wal_checkpoint_history.
+
+Example C04_wal_checkpoint_history_nonvacuous :
+  let pg h := mkPg (fl h) 0 false in
+  let pw h := mkPg (fl h) 0 true in
+  let hs := [HTx [] [AWrite 1 (pg 11); AWrite 2 (pg 12)] 2] in
+  let sw := [AWrite 1 (pw 13)] in
+  let os := [WCommit [(2, pw 22); (3, pw 33); (2, pw 23)] 3; WCheckpoint; WCommit [(1, pw 14)] 2;
+             WCommit [(3, pw 35); (1, pw 15)] 3; WCheckpoint] in
+  exists s1 s2,
+    wf_hist (init 2097153) hs /\ run_hsteps (init 2097153) hs = Some s1 /\
+    wf_tx_any s1 [] sw /\ run_group s1 (hops s1 (HTx [] sw 2)) = (0, s2) /\ wal_mode s2 = true /\
+    wf_wops s2 os /\
+    match run_wops s2 (file_h s2) os with
+    | Some (s', v') => (txid s', pageN s', chk s' =? fl (N.lxor (N.lxor (fl 15) (fl 23)) (fl 35)), length (wal_file s'),
+                        map (file_h s') [1; 2; 3]) = (5, 3, true, 0%nat, [fl 15; fl 23; fl 35])
+    | None => False
+    end.
+Proof. exact wal_ckpt_history_example. Qed.
